@@ -273,6 +273,45 @@ fn doc_stream(n: u64) -> Option<String> {
       if dec.protected.nonce() != nonce || dec.protected.kid() != Some(want_kid.as_str()) {
         return Some("doc-verify-header-differs:".into());
       }
+      // every requested option is in the protected header, as requested
+      let h = &dec.protected;
+      if bit(3) && h.typ() != Some("vc+jwt") {
+        return Some(format!("doc-verify-header-differs:typ {:?}", h.typ()));
+      }
+      if bit(4) && h.cty() != Some("json") {
+        return Some(format!("doc-verify-header-differs:cty {:?}", h.cty()));
+      }
+      if bit(5) && h.url().map(|u| u.as_str()) != Some("https://example.com/x") {
+        return Some(format!("doc-verify-header-differs:url {:?}", h.url()));
+      }
+      if bit(9) && h.custom().and_then(|c| c.get("x-custom")) != Some(&serde_json::json!({"a": [1, "two"]})) {
+        return Some("doc-verify-header-differs:custom header parameter".into());
+      }
+      match (b64, h.b64()) {
+        (Some(false), Some(false)) => {
+          if !h.crit().map(|c| c.iter().any(|x| x == "b64")).unwrap_or(false) {
+            return Some("doc-verify-header-differs:b64=false without crit".into());
+          }
+        }
+        (Some(false), other) => return Some(format!("doc-verify-header-differs:b64 {:?}", other)),
+        (_, Some(false)) => return Some("doc-verify-header-differs:b64=false although not requested".into()),
+        _ => {}
+      }
+      let own_key = doc.resolve_method(&method_id, None).and_then(|m| m.data().public_key_jwk()).map(|j| j.thumbprint_sha256_b64());
+      match (bit(0), h.jwk()) {
+        (true, Some(j)) => {
+          if !j.is_public() || Some(j.thumbprint_sha256_b64()) != own_key {
+            return Some("doc-verify-header-differs:the attached jwk is not the method's public key".into());
+          }
+        }
+        (true, None) => return Some("doc-verify-header-differs:jwk not attached".into()),
+        (false, Some(_)) => return Some("doc-verify-header-differs:jwk attached although not requested".into()),
+        _ => {}
+      }
+      let segs: Vec<&str> = jws.as_str().split('.').collect();
+      if segs.len() != 3 || (detached != segs[1].is_empty()) {
+        return Some(format!("doc-verify-header-differs:detached {} but payload segment {:?}", detached, segs.get(1).map(|s| s.len())));
+      }
     }
     Err(e) => return Some(format!("own-token-does-not-verify:{:?} opts {:?}", e, opts)),
   }
